@@ -16,8 +16,8 @@ use triomphe::{Arc, ArcBorrow, ArcUnion, ArcUnionBorrow, HeaderSlice, OffsetArc,
 
 pub type Alt = Tok1b;
 
-pub trait SizedPayload: Payload + Probe + Default + Send + Sync + PartialEq + std::hash::Hash + std::fmt::Debug {}
-impl<T: Payload + Probe + Default + Send + Sync + PartialEq + std::hash::Hash + std::fmt::Debug> SizedPayload for T {}
+pub trait SizedPayload: Payload + Probe + Default + Send + Sync + PartialEq + PartialOrd + std::hash::Hash + std::fmt::Debug {}
+impl<T: Payload + Probe + Default + Send + Sync + PartialEq + PartialOrd + std::hash::Hash + std::fmt::Debug> SizedPayload for T {}
 
 #[derive(Clone, Copy, Debug, PartialEq, Eq, PartialOrd, Ord)]
 pub enum Kind {
